@@ -112,6 +112,11 @@ structure Cfg where
   lazy : Bool
   defaults : List Val
   listeners : List Listener
+  /-- `sqlmeta.cacheValues`: with `false` nothing is kept on the instance and every read goes to the
+      database.  No send point and no write depends on it (`_SO_setValue`, `set`, `syncUpdate` only
+      guard the `setattr` of the cached value with it), so no function below reads the field: every
+      theorem holds for both values by quantifying over `Cfg`.  The correspondence run exercises both. -/
+  cacheValues : Bool := true
   deriving Repr
 
 def Cfg.dflt (c : Cfg) (k : Nat) : Val := (c.defaults[k]?).getD .null
